@@ -295,6 +295,26 @@ func matchSpec(fn *ssa.Function, in ssa.Instruction, spec string, selSend map[*s
 			return kind == "uses-literal-result" && fromLit(t.X)
 		}
 		return false
+	case "store-field-not-from-call":
+		// a store into the named field of anything but the direct result of a call of the named function
+		parts := strings.SplitN(arg, ":", 2)
+		if len(parts) != 2 {
+			return false
+		}
+		st, ok := in.(*ssa.Store)
+		if !ok {
+			return false
+		}
+		fa, ok := st.Addr.(*ssa.FieldAddr)
+		if !ok || valueName(fn, fa) != parts[0] {
+			return false
+		}
+		if c, ok := st.Val.(*ssa.Call); ok {
+			if f := c.Call.StaticCallee(); f != nil && originOf(f).Name() == parts[1] {
+				return false
+			}
+		}
+		return true
 	case "store-field-from-call":
 		// a store into the named field of the direct result of a call of the named function:
 		// "store-field-from-call:SubjectAltNames:UnsortedList"
